@@ -36,7 +36,7 @@ impl FixedBitfield {
                     | ((data[i + 1] as u32) << 8)
                     | ((data[i + 2] as u32) << 16)
                     | ((data[i + 3] as u32) << 24);
-                bitfield[i / 4] = value;
+                bitfield[(i - data_index) / 4] = value;
                 i += 4;
             }
         }
